@@ -12,9 +12,10 @@ from sa.rulekit import (nodes_calling, node_calls, nodes_where, return_nodes, ow
 TI = 'blocklib.timeinterval'
 
 UNDECIDED = [
-    "equivalence of the *string* notations (regex / strptime / fromisoformat semantics, month "
-    "name abbreviations, whitespace, fractional seconds, legacy ',' delimiter) -- a statement "
-    "about an infinite input space of strings; NOT decided",
+    "equivalence of the *string* notations for all strings (regex / strptime / fromisoformat semantics, "
+    "whitespace, fractional seconds, legacy ',' delimiter) -- a statement about an infinite input space "
+    "of strings; NOT decided. Decided only (R13.6): the date / date-time parser _convert_str on 20 "
+    "well-formed and 22 malformed representative strings (a finite sample, a necessary condition)",
     "value semantics of datetime construction (invalid dates, Feb 29) -- not decided",
 ]
 
